@@ -25,7 +25,7 @@ VARIABLES l, viol,
           ct       \* session-level contact state of the scenario: [sw, self, conn, banned]
 tvars == <<vars, l, viol, ct>>
 
-NoCt == [sw |-> [out |-> FALSE, inc |-> FALSE, trk |-> FALSE], self |-> <<NoIp, 0>>, conn |-> {}, banned |-> {}]
+NoCt == [sw |-> [out |-> FALSE, inc |-> FALSE, trk |-> FALSE], self |-> {}, conn |-> {}, banned |-> {}]
 
 Trace == ndJsonDeserialize("trace.ndjson")
 Ev == Trace[l]
@@ -125,11 +125,10 @@ TrPanic == Ev.op = "Panic" /\ UNCHANGED vars /\ Step("C18.panic")
 
 TrCInit ==
     /\ Ev.op = "CInit" /\ UNCHANGED vars
-    /\ ct' = [sw |-> [out |-> Ev.out, inc |-> Ev.inc, trk |-> Ev.trk], self |-> <<Ev.self, Ev.sport>>,
-              conn |-> {}, banned |-> {}]
+    /\ ct' = [sw |-> [out |-> Ev.out, inc |-> Ev.inc, trk |-> Ev.trk], self |-> {}, conn |-> {}, banned |-> {}]
     /\ StepC("")
-\* the torrent got its listening port
-TrCSelf  == Ev.op = "CSelf" /\ UNCHANGED vars /\ ct' = [ct EXCEPT !.self = <<Ev.self, Ev.sport>>] /\ StepC("")
+\* the torrent got its listening port / was told its external IP by a peer (yourip of the extension handshake)
+TrCSelf  == Ev.op = "CSelf" /\ UNCHANGED vars /\ ct' = [ct EXCEPT !.self = @ \cup {<<Ev.self, Ev.sport>>}] /\ StepC("")
 \* a connection with the client exists (handshake done) or is being set up (TCP accepted by a scripted listener)
 TrCConn  == Ev.op = "CConn" /\ UNCHANGED vars /\ ct' = [ct EXCEPT !.conn = @ \cup {Ev.ip}] /\ StepC("")
 TrCDisc  == Ev.op = "CDisc" /\ UNCHANGED vars /\ ct' = [ct EXCEPT !.conn = @ \ {Ev.ip}] /\ StepC("")
